@@ -432,12 +432,21 @@ def connectionLost (w : World) : Res :=
   if w2.role = some true then mInput .connection_lost_leader "" 0 w2
   else mInput .connection_lost_follower "" 0 w2
 
-/-- `_find_shared_versions(my, their)`: `set(their)` (TypeError if `their` is not iterable or holds
-    a list / dict), intersected with ours; the first of ours that is in it.  A str iterates as its
-    characters, a dict as its keys. -/
+/-- `_find_shared_versions(my, their)`.  Today: anything that is not a list counts as `[]`
+    (`shared_versions_requires_list`) and only the str entries go into the set
+    (`shared_versions_filters_strings`); the first of ours that is among them.  Without these two
+    guards the code does `set(their)`: TypeError if `their` is not iterable or holds a list / dict;
+    a str iterates as its characters, a dict as its keys. -/
 def findShared (my : List String) (their : J) : Except Err (Option String) :=
-  match their with
-  | .arr xs => if xs.all J.hashable then .ok (my.find? fun v => xs.any (·.isStr v)) else .error .typeError
+  let their' : J := if Flags.shared_versions_requires_list then
+      (match their with
+       | .arr xs => .arr xs
+       | _ => .arr [])
+    else their
+  match their' with
+  | .arr xs =>
+    if Flags.shared_versions_filters_strings || xs.all J.hashable then .ok (my.find? fun v => xs.any (·.isStr v))
+    else .error .typeError
   | .str s => .ok (my.find? fun v => v.length == 1 && s.toList.any fun c => String.singleton c == v)
   | .obj kvs => .ok (my.find? fun v => kvs.any fun kv => kv.1 == v)
   | _ => .error .typeError
